@@ -61,7 +61,6 @@ class EFLRItem:
 
         self._check_parent(parent)
         self._parent = parent  #: EFLRSet instance this item belongs to
-        self._parent.register_item(self)
 
         #: origin reference value, common for records sharing origin
         self._origin_reference: Union[int, None] = self._validate_origin_reference(origin_reference, allow_none=True)
@@ -73,6 +72,9 @@ class EFLRItem:
             attribute.parent_eflr = self
 
         self.set_attributes(**{k: v for k, v in kwargs.items() if v is not None})
+
+        # register the item with its set only now that all its values have been accepted
+        self._parent.register_item(self)
 
     @property
     def parent(self) -> "EFLRSet":
@@ -116,8 +118,9 @@ class EFLRItem:
     def _compute_copy_number(self) -> int:
         """Compute copy number of this ELFRItem, i.e. how many other objects of the same type and name there are."""
 
-        items_with_the_same_name = filter(lambda o: o.name == self.name, self.parent.get_all_eflr_items())
-        return len(list(items_with_the_same_name)) - 1
+        # (the item itself is not registered with the parent yet at this point)
+        items_with_the_same_name = filter(lambda o: o.name == self.name and o is not self, self.parent.get_all_eflr_items())
+        return len(list(items_with_the_same_name))
 
     @classmethod
     def _check_parent(cls, parent: "EFLRSet") -> None:
